@@ -125,6 +125,7 @@ class Task:
         self.site = None
         self.value = None       # return value of the decoder generator (the object)
         self.steps = 0
+        self.calls_at_end = None
         data = bytes.fromhex(spec["data"])
         self.n_input = len(data)
         buf, self.counter = make_source(spec.get("source", "bytes"), data, spec.get("chunks"), hook)
@@ -180,11 +181,15 @@ class Task:
             return True
         except StopIteration:
             self.done = True
+            if isinstance(self.counter, CountingSource):
+                self.calls_at_end = (self.counter.pulls, self.counter.calls, self.counter.stops)
         except BaseException as e:  # noqa: recorded, classified by the oracles
             if isinstance(e, (KeyboardInterrupt, SystemExit, MemoryError)):
                 raise
             self.done = True
             self.exc = e
+            if isinstance(self.counter, CountingSource):
+                self.calls_at_end = (self.counter.pulls, self.counter.calls, self.counter.stops)
             rem = getattr(e, "bytes_remaining", None)
             try:
                 self.remaining = None if rem is None else bytes(rem)
@@ -235,6 +240,7 @@ class World:
         self.tasks = {}
         self.order = []
         self.running = None
+        self.nested = False
         for spec in task_specs:
             hook = self._hook_for(spec["id"]) if spec.get("source") == "counting" else None
             t = Task(spec, hook)
@@ -243,20 +249,25 @@ class World:
 
     def _hook_for(self, tid):
         def hook(src):
-            if self.running != tid:
+            # pre-emption inside a pull: nesting depth 1, never re-enter a generator that is executing
+            if self.running != tid or self.nested:
                 return
             others = self.preempt.get((tid, src.calls))
             if not others:
                 return
             outer = self.running
-            for oid in others:
-                t = self.tasks.get(oid)
-                if t is None or t.done or oid == outer:
-                    continue
-                self.running = oid
-                self._record(oid, True)
-                t.step()
-            self.running = outer
+            self.nested = True
+            try:
+                for oid in others:
+                    t = self.tasks.get(oid)
+                    if t is None or t.done or oid == outer:
+                        continue
+                    self.running = oid
+                    self._record(oid, True)
+                    t.step()
+            finally:
+                self.nested = False
+                self.running = outer
         return hook
 
     def _record(self, tid, nested):
